@@ -40,7 +40,7 @@ def main():
         ],
         "checks": checks,
         "not_applicable": na,
-        "notes": "Fixed defects F1-F6 are recorded in known_findings.json (fixed entries suppress nothing). DESIGN.md explains the approach, the trusted base and which seeded changes are caught by which check.",
+        "notes": "Fixed defects F1-F6 are recorded in known_findings.json (fixed entries suppress nothing); four findings (K1-K3: C03 at degenerate descriptors; K4: C02 when a disable flag is toggled twice inside one line; inputs under findings/) are recorded as known, not repaired: the C03 and C02 checks print one KNOWN-FINDING line for each and still report any other violation. DESIGN.md explains the approach, the trusted base and which seeded changes are caught by which check.",
     }
     json.dump(m, open(os.path.join(lib.VERIF, "MANIFEST.json"), "w"), indent=1)
     print("checks:", [c["property_id"] for c in checks], "not applicable:", [x["property_id"] for x in na])
